@@ -188,10 +188,15 @@ def run_case(case, ctx):
         _try(lambda: ~Fxp(np.arange(lox, hix + 1), sx, w, nf, raw=True))
         # mismatched word lengths are rejected
         x = Fxp(hix, sx, w, nf, raw=True)
-        z = Fxp(1, sy, w + 1, nf, raw=True)
-        _try(lambda: x & z)
-        _try(lambda: x | z)
-        _try(lambda: x ^ z)
+        for wz in (w + 1, w - 1, w + 7):
+            if wz >= 1:
+                z = Fxp(1 if wz > 1 or not sy else 0, sy, wz, 0, raw=True)
+                _try(lambda: x & z)
+                _try(lambda: x | z)
+                _try(lambda: x ^ z)
+                _try(lambda: z & x)
+                _try(lambda: z | x)
+                _try(lambda: z ^ x)
         return
     rng = ctx.rng_for('wide', case['i'])
     i = case['i']
@@ -222,3 +227,5 @@ def run_case(case, ctx):
     laws(ctx, x, y)
     z = Fxp(1, sy, w + rng.choice([-1, 1]), 0, raw=True)
     _try(lambda: x & z)
+    _try(lambda: x | z)
+    _try(lambda: x ^ z)
